@@ -97,10 +97,11 @@ ReqsMove == {Rq(k, o, IF p = <<>> THEN Absent ELSE EncPath(p), n, Absent, np, Ab
 SegSeqs == IF Level = "core" THEN (PathsCore \ {<<>>}) \cup {<<DotDot, s>> : s \in Sigma} \cup {<<DotDot, DotDot, s>> : s \in Sigma}
            ELSE {<<s>> : s \in Sigma} \cup P2 \cup {<<s, u, v>> : s \in Sigma, u \in Sigma, v \in Sigma}
 SegRaw(sg) == SubSeq(EncPath(sg), 3, Len(EncPath(sg)))
-UpBases == IF Level = "core" THEN {<<Absent, A>>, <<Absent, DotDot>>} ELSE {<<Absent, A>>, <<Absent, DotDot>>, <<EncPath(<<A>>), Up>>}
+UpBases == {<<Absent, A>>, <<Absent, DotDot>>} \cup (IF Level = "core" THEN {} ELSE {<<EncPath(<<A>>), Up>>})
+SegSeqsFor(b) == IF b[2] = Up THEN PathsCore \ {<<>>} ELSE SegSeqs
 ReqsUpFolder ==
-  {Rq("upfolder", o, b[1], b[2], Absent, Absent, Absent) @@ [item |-> [folder |-> f, count |-> Len(sg), raw |-> SegRaw(sg)]]
-     : o \in {0, 1}, b \in UpBases, f \in {0, 1}, sg \in SegSeqs}
+  UNION {{Rq("upfolder", o, b[1], b[2], Absent, Absent, Absent) @@ [item |-> [folder |-> f, count |-> Len(sg), raw |-> SegRaw(sg)]]
+            : o \in {0, 1}, f \in {0, 1}, sg \in SegSeqsFor(b)} : b \in UpBases}
   \cup {Rq("upfolder", 0, Absent, A, Absent, Absent, Absent) @@ [item |-> [folder |-> f, count |-> c, raw |-> r]]
      : f \in {0, 1}, c \in {1, 2}, r \in {<<0,0,1,102>>, <<0,0,5,102>>, <<0,0>>}}
 AcctLogins == Sigma \cup {A}
